@@ -429,9 +429,22 @@ class get_api_assumed:
     modifies = []
 
 
-@contract("safeds_stubgen.api_analyzer._api:API.to_json_file", props=["C10"], verify=False)
-class to_json_file_assumed:
+@contract("safeds_stubgen.api_analyzer._api:API.to_json_file", props=["C10", "C12"])
+class to_json_file:
+    """The inventory file: parent directories are created, the file is opened for (re)writing and receives exactly
+    the dictionary `to_dict` returned (the contents of that dictionary are the bounded contract of API.to_dict)."""
+    params = {"path": "pathlib.Path"}
+    ghost = ["EXT"]
     modifies = []
+    safety = False
+
+    def ensures_written(self, path, result):
+        o = CALLS(EXT, "pathlib.Path.open")
+        d = CALLS(EXT, "API.to_dict")
+        j = CALLS(EXT, "json.dump")
+        return len(o) == 1 and len(d) == 1 and len(j) == 1 and o[0][1] == path and o[0][2] == "w" \
+            and d[0][1] == self and j[0][1] == d[0][2] and j[0][2] == o[0][4] \
+            and CALLS(EXT, "pathlib.Path.mkdir")[0][1] == path.parent and CALLS(EXT, "pathlib.Path.touch")[0][1] == path
 
 
 @contract(_GS + "generate_stub_data", props=["C10"], verify=False)
@@ -453,6 +466,7 @@ class run_stub_generator_wiring:
               "is_test_run": "bool", "convert_identifiers": "bool", "type_source_preference": "TypeSourcePreference",
               "type_source_warning": "TypeSourceWarning"}
     ghost = ["EXT"]
+    log_calls = ["API.to_json_file"]
     modifies = []
     safety = False
 
